@@ -228,3 +228,43 @@ func rpcClientReaders() int {
 	}
 	return strings.Count(string(buf[:n]), "net/rpc.(*Client).input(")
 }
+
+// DropServerConns closes every connection the RPC server of a (still running) node has taken over, as a
+// network reset between the nodes would; the node itself keeps running.
+func DropServerConns(me NodeSpec) {
+	serverConnMu.Lock()
+	conns := serverConns[me.Name()]
+	delete(serverConns, me.Name())
+	serverConnMu.Unlock()
+	before := rpcClientReaders()
+	for _, cn := range conns {
+		cn.Close()
+	}
+	last, lastChange := rpcClientReaders(), time.Now()
+	for deadline := time.Now().Add(2 * time.Second); last > before-len(conns) && time.Now().Before(deadline) && len(conns) > 0 && time.Since(lastChange) < 4*time.Millisecond; {
+		time.Sleep(200 * time.Microsecond)
+		if n := rpcClientReaders(); n != last {
+			last, lastChange = n, time.Now()
+		}
+	}
+}
+
+// HangServer makes the RPC server at the given address stop answering: every request it reads from now on
+// is held before it is executed. The returned function ends the hanging for new requests; the requests
+// already held stay held until release is closed (the caller drops the server's connections first, so that
+// they are never executed against a state that has been judged meanwhile).
+func HangServer(me NodeSpec, release <-chan struct{}) (stop func()) {
+	var active atomic.Bool
+	active.Store(true)
+	addr := me.Name()
+	fn := func(serverAddr, method string) {
+		if serverAddr == addr && active.Load() {
+			<-release
+		}
+	}
+	mrpc.VerifRequestFn.Store(&fn)
+	return func() {
+		active.Store(false)
+		mrpc.VerifRequestFn.Store(nil)
+	}
+}
